@@ -19,6 +19,7 @@ import (
 type negCase struct {
 	I       int
 	Class   string
+	Sub     string            // refinement of Class that goes into the signature only ("" = none)
 	Files   map[string]string // name -> content (raw bytes in a string)
 	Root    string
 	Target  string // -gen value
@@ -636,6 +637,10 @@ func (c *c11) runNegative(nc *negCase, st *negStats) {
 			"exit": exit, "output": clip(reAnsi.ReplaceAllString(text, ""), 1500)}
 	}
 	kind := crashKind(text, r.ExitCode, r.Signaled)
+	sigClass := nc.Class
+	if nc.Sub != "" {
+		sigClass += ":" + nc.Sub
+	}
 	switch {
 	case r.TimedOut:
 		c.violation("C11:hang:"+nc.Class, fmt.Sprintf("the compiler did not terminate within 20 s, nor within 120 s when run again alone (-gen %s)", nc.Target), witness())
@@ -654,7 +659,7 @@ func (c *c11) runNegative(nc *negCase, st *negStats) {
 			}
 		}
 	case r.ExitCode == 0 && nc.Invalid:
-		c.violation("C11:invalid-input-accepted:"+nc.Class, fmt.Sprintf("input that is invalid by construction compiled with exit status 0 (-gen %s)", nc.Target), witness())
+		c.violation("C11:invalid-input-accepted:"+sigClass, fmt.Sprintf("input that is invalid by construction compiled with exit status 0 (-gen %s; %s)", nc.Target, nc.Note), witness())
 	case r.ExitCode == 0 && nc.Target == "json":
 		b, err := os.ReadFile(filepath.Join(out, "frugal.json"))
 		var v interface{}
